@@ -72,15 +72,29 @@ def run(chk, facts, tier):
             b = strip_casts(base_object(n))
             return b is h or (b is not None and b.n in res)
         ats = guard_atoms(fn, h)
-        cfg = any(op == '!=' and r == 0 and not isinstance(l, int) and strip_casts(l).is_call('configured_for_indications') for l, op, r in ats)
+        def is_cfg(l):
+            x = strip_casts(l)
+            if x.is_call('configured_for_indications'):
+                return True
+            if x.k == 'DeclRefExpr' and x.d.get('local'):      # the result kept in a local that nothing else writes
+                ds = [d for d in fn.body.find(lambda n: n.k == 'VarDecl' and n.n == x.n and n.c) if strip_casts(d.c[0]).is_call('configured_for_indications')]
+                return len(ds) == 1 and not any(is_name(tgt, x.n) for tgt, op, val, st in stores(fn.body))
+            return False
+        cfg = any(((op == '!=' and (r == 0 or cval(r) == 0)) or (op == '==' and cval(r) == 1)) and not isinstance(l, int) and is_cfg(l) for l, op, r in ats)
         why = '' if cfg else 'the handler runs (and may mark a procedure as in progress) for a client that has not enabled indications: the write is then refused with "CCCD improperly configured", no response is ever indicated and the control point stays busy'
         after = [r for r in fn.returns() if precedes(fn, h, r) or fn.paths_avoiding([fn.block_of(h)], fn.block_of(r), set()) and fn.block_of(h) != fn.block_of(r)]
         okr = bool(after) and all(is_res(ret_value(r), 'first') for r in after)
         if cfg and not okr:
             why = 'a return after the handler call does not pass the handler\'s result code on'
         ind = fn.body.calls('indicate')
-        oki = len(ind) == 1 and precedes(fn, h, ind[0]) and any(op == '!=' and r == 0 and is_res(l, 'second') for l, op, r in guard_atoms(fn, ind[0]) if not isinstance(l, int)) \
-            and len(guard_atoms(fn, ind[0])) == len(ats) + 1
+        def is_second(l):
+            if is_res(l, 'second'):
+                return True
+            init = resolve_local(strip_casts(l))
+            return init is not None and is_res(init, 'second')
+        gi = guard_atoms(fn, ind[0]) if len(ind) == 1 else []
+        oki = len(ind) == 1 and precedes(fn, h, ind[0]) and any(op == '!=' and (r == 0 or cval(r) == 0) and is_second(l) for l, op, r in gi if not isinstance(l, int)) \
+            and all(any(same_expr(l, l2) and op == op2 for l2, op2, r2 in ats if not isinstance(l2, int)) or is_second(l) or is_res(l, 'second') for l, op, r in gi if not isinstance(l, int))
         if cfg and okr and not oki:
             why = 'the response indication is not requested exactly when the handler asks for it'
         ok = cfg and okr and oki
